@@ -76,8 +76,8 @@ def shards(tier, seed):
     T = tier == "thorough"
     out = [{"name": "lengths-%d" % i, "part": i, "exhaustive": "every message length 0..1100"} for i in range(4)]
     out += [{"name": "powers-%d" % k, "k": k} for k in range(1, (8 if T else 7))]
-    out.append({"name": "content", "count": 10000 if T else 1500})
-    out += [{"name": "cli-%d" % i, "count": 400 if T else 40} for i in range(8)]
+    out.append({"name": "content", "count": 40000 if T else 1500})
+    out += [{"name": "cli-%d" % i, "count": 1500 if T else 40} for i in range(8)]
     return out
 
 
